@@ -2035,7 +2035,7 @@ Proof. split; [reflexivity|]. eexists. splits; vm_compute; reflexivity. Qed.
 
 (** a path expression after it consumed the segments [pre]: what is left of it and
     what it captured so far *)
-Fixpoint advance (pat : list seg) (pre : list string) : option (list seg * caps) :=
+Fixpoint advance (pat : list seg) (pre : list string) {struct pre} : option (list seg * caps) :=
   match pre with
   | [] => Some (pat, [])
   | s :: r =>
@@ -2056,10 +2056,8 @@ Lemma advance_snoc s : forall pre pat,
   end.
 Proof.
   induction pre as [|x pre IH]; intro pat.
-  - cbn [app advance]. destruct pat as [|[l|n|n] p]; try reflexivity.
-    + destruct (String.eqb l s); reflexivity.
-    + destruct (is_empty s); reflexivity.
-  - cbn [app advance]. destruct pat as [|[l|n|n] p]; try reflexivity.
+  - destruct pat as [|[l|n|n] p]; cbn [app advance]; try reflexivity.
+  - destruct pat as [|[l|n|n] p]; cbn [app advance]; try reflexivity.
     + destruct (String.eqb l x); [apply IH | reflexivity].
     + destruct (is_empty x); [reflexivity|]. rewrite IH.
       destruct (advance p pre) as [[[|[l'|n'|n'] p'] cs]|]; try reflexivity.
@@ -2155,7 +2153,287 @@ Proof.
   destruct (path_segs p) as [segs|] eqn:Sp; [|discriminate]. rewrite dfs_fast_eq. intro H.
   assert (Hr : In (cd_route c) (r_routes (cd_rule c))).
   { apply (dfs_rule_inv _ (fun r t => In t (r_routes r)) _ _ _ (cands_of_Forall _ rules (fun r t _ Ht => Ht)) H). }
-  destruct (dfs_adv _ segs [] (cands_of rules) c) as [A B]; [|exact H|].
+  destruct (dfs_adv (cand_ok fx p) segs [] (cands_of rules) c) as [A B]; [|exact H|].
   - intros x Hx. apply in_cands_of in Hx as (r & t & _ & _ & ->). reflexivity.
   - simpl in A, B. auto.
 Qed.
+
+(** what [create_url_q] writes into the request line for a `no_decode` rule: the
+    request path as it is, after the rule's prefix rewriting *)
+Definition expected_wire (b : backend) (p : string) : string :=
+  match b_rw b with Some rw => transform_path rw p | None => p end.
+
+Lemma wire_path_nodecode m b host p q :
+  wfenc p -> valid_encoded p = true -> is_empty p = false ->
+  wfenc (expected_wire b p) -> valid_encoded (expected_wire b p) = true ->
+  wire_path (create_url_q m b (mk_view host p q)) = expected_wire b p.
+Proof.
+  intros W V Ne We Ve. destruct (wfenc_unescape p W) as [pa Hpa].
+  assert (E0 : escaped_path (unescape_or_empty p) p = p).
+  { rewrite (unescape_or_empty_some _ _ Hpa). apply escaped_path_valid; assumption. }
+  unfold create_url_q, expected_wire in *. destruct (b_rw b) as [rw|].
+  - unfold rewrite_q, wire_path; simpl. rewrite E0.
+    set (e := transform_path rw p) in *. destruct (wfenc_unescape e We) as [pe Hpe].
+    rewrite (unescape_or_empty_some _ _ Hpe).
+    assert (R : (if String.eqb pe e then (if is_empty p then p else e) else e) = e).
+    { rewrite Ne. destruct (String.eqb pe e); reflexivity. }
+    rewrite R. apply escaped_path_valid; assumption.
+  - unfold wire_path; simpl. exact E0.
+Qed.
+
+(** ** what an accepted request looks like (any entry point: the view is [mk_view]) *)
+
+Theorem accepted_view fx rules dflt host q p rid cs up :
+  is_empty p = false -> wfenc p ->
+  (fx2 fx = true \/ contains "%2f" p = false) ->
+  (fx5 fx = true \/ guard_F5 p = false) ->
+  serve_view fx rules dflt (mk_view host p q) = Accepted rid false cs up ->
+  exists r t raw,
+    In r rules /\ r_id r = rid /\ In t (r_routes r) /\
+    rmatch (rt_pat t) (segs_of p) = true /\
+    route_caps (rt_pat t) (segs_of p) = Some raw /\
+    cs = map (fun kv => (fst kv, spec_capture (r_setting r) (snd kv))) raw /\
+    (r_setting r = Off -> enc_slash p = false) /\
+    (r_setting r = NoDecode -> forall b, r_backend r = Some b ->
+       wfenc (expected_wire b p) -> valid_encoded (expected_wire b p) = true -> valid_encoded p = true ->
+       exists u', up = Some u' /\ wire_path u' = expected_wire b p).
+Proof.
+  intros Ne W G2 G5. unfold serve_view. set (u := mk_view host p q).
+  assert (Er : u_rawpath u = p) by reflexivity.
+  assert (L : lc_ok (fx2 fx) p = true).
+  { unfold lc_ok. destruct G2 as [->| ->]; [reflexivity | apply orb_true_r]. }
+  destruct (find_rule fx rules u) as [c|] eqn:F.
+  2:{ destruct dflt; [|discriminate]. unfold execute. destruct (has_enc_slash (fx2 fx) (u_rawpath u)); discriminate. }
+  destruct (find_rule_route fx rules u c p Er Ne F) as (Hin & Hrt & Hm & Hc).
+  pose proof (find_rule_pieces (fx5 fx) fx rules (fx2 fx) u c p Er Ne W L G5 F) as Pc.
+  unfold execute. intro H.
+  exists (cd_rule c), (cd_route c), (cd_caps c).
+  assert (Off_case : r_setting (cd_rule c) = Off -> enc_slash p = false).
+  { intro Es. rewrite Es in H. destruct (has_enc_slash (fx2 fx) (u_rawpath u)) eqn:Hs; [discriminate|].
+    simpl in Hs. rewrite has_enc_slash_lc in Hs by assumption. exact Hs. }
+  assert (Hcs : cs = map (fun kv => (fst kv, unescape_capture fx (r_setting (cd_rule c)) (snd kv))) (cd_caps c) /\
+                r_id (cd_rule c) = rid /\
+                up = option_map (fun b => create_url_q {| qf1 := fxq fx; qf6 := fxq6 fx |} b
+                       (match r_setting (cd_rule c) with
+                        | On => {| u_scheme := u_scheme u; u_host := u_host u; u_path := u_path u;
+                                   u_rawpath := EmptyString; u_query := u_query u |}
+                        | _ => u end)) (r_backend (cd_rule c))).
+  { destruct (r_setting (cd_rule c)); [destruct (has_enc_slash (fx2 fx) (u_rawpath u)); [discriminate|]| |];
+      inversion H; auto. }
+  destruct Hcs as (Ecs & Erid & Eup). splits; auto.
+  - rewrite Ecs. apply map_ext_in. intros [n v] Hx. rewrite Forall_forall in Pc.
+    destruct (Pc _ Hx) as (Wv & Lv & Gv & Pv). simpl in *. f_equal.
+    assert (G2v : fx2 fx = true \/ contains "%2f" v = false).
+    { unfold lc_ok in Lv. destruct (fx2 fx); [left; reflexivity | right]. simpl in Lv. apply negb_true_iff in Lv. exact Lv. }
+    rewrite (capture_decoding fx _ v Wv G2v Gv). destruct (r_setting (cd_rule c)) eqn:Es; try reflexivity.
+    simpl. apply dks_no_slash; [assumption|].
+    assert (Tp : tok_all (fun _ => true) ns_t p = true).
+    { pose proof (Off_case eq_refl) as E. rewrite enc_slash_tok in E by assumption. apply negb_false_iff in E. exact E. }
+    pose proof (find_rule_pieces_tok (fun _ => true) ns_t fx rules u c p eq_refl Er Ne W Tp F) as Pt.
+    rewrite Forall_forall in Pt. pose proof (Pt _ Hx) as Tv. simpl in Tv.
+    rewrite enc_slash_tok by assumption. rewrite Tv. reflexivity.
+  - intros Es b Hb We Ve Vp. rewrite Es, Hb in Eup. simpl in Eup. eexists. split; [exact Eup|].
+    apply wire_path_nodecode; assumption.
+Qed.
+
+(** the precondition answer: if every path expression that matches the path as it is
+    spelled belongs to an `off` rule, a path with an encoded slash is answered with
+    the precondition error — or with "no rule" when nothing accepts it and no default
+    rule is configured *)
+Theorem precondition_view fx rules dflt host q p :
+  is_empty p = false -> enc_slash p = true ->
+  (fx2 fx = true \/ contains "%2f" p = false) ->
+  (forall r t, In r rules -> In t (r_routes r) -> rmatch (rt_pat t) (segs_of p) = true -> r_setting r = Off) ->
+  serve_view fx rules dflt (mk_view host p q) = Precondition \/
+  (dflt = false /\ serve_view fx rules dflt (mk_view host p q) = NoRule).
+Proof.
+  intros Ne Es G2 Hoff. unfold serve_view. set (u := mk_view host p q).
+  assert (Er : u_rawpath u = p) by reflexivity.
+  assert (L : lc_ok (fx2 fx) p = true).
+  { unfold lc_ok. destruct G2 as [->| ->]; [reflexivity | apply orb_true_r]. }
+  assert (Hs : has_enc_slash (fx2 fx) (u_rawpath u) = true) by (simpl; rewrite has_enc_slash_lc; assumption).
+  destruct (find_rule fx rules u) as [c|] eqn:F.
+  - destruct (find_rule_route fx rules u c p Er Ne F) as (Hin & Hrt & Hm & Hc).
+    rewrite (Hoff _ _ Hin Hrt Hm). unfold execute. rewrite Hs. left; reflexivity.
+  - destruct dflt; [left; unfold execute; rewrite Hs; reflexivity | right; auto].
+Qed.
+
+(** ** the three entry points produce [mk_view] *)
+
+Lemma view_http_mk host p q u : view host p q = Some u -> valid_encoded p = true -> p <> "*" ->
+  wfenc p /\ is_empty p = false /\ u = mk_view host p q.
+Proof.
+  intros V Ev Hs. destruct (view_wf _ _ _ _ V Ev Hs) as [W Eu].
+  pose proof (view_rawpath_nonempty _ _ _ _ V) as Ne. rewrite (view_valid _ _ _ _ V Ev) in Ne. auto.
+Qed.
+
+Lemma view_envoy_mk host p q : view_envoy host p q = mk_view host p q.
+Proof. reflexivity. Qed.
+
+Lemma view_xfu_mk f6 host own p q u : view_xfu f6 host own p q = Some u ->
+  wfenc p -> valid_encoded p = true -> has_prefix "/" p = true ->
+  is_empty p = false /\ u = mk_view host p (values_encode (fst (parse_query q))).
+Proof.
+  intros V W Ev Hp. unfold view_xfu in V. destruct (has_ctl p || has_ctl q); [discriminate|].
+  destruct (wfenc_unescape p W) as [pa Hpa].
+  destruct (set_path p) as [[pa' rp]|] eqn:Hs; [|apply set_path_none in Hs; congruence].
+  inversion V; subst u. unfold view_of.
+  rewrite (set_path_escaped _ _ _ Hs) by (eapply unescape_keeps_slash; [eassumption | eapply set_path_unescape; eassumption]).
+  rewrite Ev. split; [|reflexivity]. destruct p; [discriminate | reflexivity].
+Qed.
+
+(** ** entry-level statements for the tree as it is now *)
+
+Definition accepted_spec (rules : list rule) (p rid : string) (cs : caps) (up : option hurl) : Prop :=
+  exists r t raw,
+    In r rules /\ r_id r = rid /\ In t (r_routes r) /\
+    rmatch (rt_pat t) (segs_of p) = true /\
+    route_caps (rt_pat t) (segs_of p) = Some raw /\
+    cs = map (fun kv => (fst kv, spec_capture (r_setting r) (snd kv))) raw /\
+    (r_setting r = Off -> enc_slash p = false) /\
+    (r_setting r = NoDecode -> forall b, r_backend r = Some b ->
+       wfenc (expected_wire b p) -> valid_encoded (expected_wire b p) = true -> valid_encoded p = true ->
+       exists u', up = Some u' /\ wire_path u' = expected_wire b p).
+
+Theorem accepted_http rules dflt host q p rid cs up :
+  p <> "*" -> guard_F4 p = false ->
+  serve repaired rules dflt host p q = Accepted rid false cs up ->
+  accepted_spec rules p rid cs up.
+Proof.
+  intros Hs G4. unfold serve. destruct (view host p q) as [u|] eqn:V; [|discriminate].
+  assert (Ev : valid_encoded p = true) by (unfold guard_F4 in G4; apply negb_false_iff in G4; exact G4).
+  destruct (view_http_mk _ _ _ _ V Ev Hs) as (W & Ne & ->). apply accepted_view; auto.
+Qed.
+
+Theorem accepted_envoy rules dflt host q p rid cs up :
+  is_empty p = false -> wfenc p ->
+  serve_envoy repaired rules dflt host p q = Accepted rid false cs up ->
+  accepted_spec rules p rid cs up.
+Proof. intros Ne W. unfold serve_envoy. rewrite view_envoy_mk. apply accepted_view; auto. Qed.
+
+Theorem accepted_xfu rules dflt host own q p rid cs up :
+  guard_F6 p = false -> guard_F4 p = false -> has_prefix "/" p = true ->
+  serve_xfu repaired rules dflt host own p q = Accepted rid false cs up ->
+  accepted_spec rules p rid cs up.
+Proof.
+  intros G6 G4 Hp. unfold serve_xfu. destruct (view_xfu (fx6 repaired) host own p q) as [u|] eqn:V; [|discriminate].
+  assert (Ev : valid_encoded p = true) by (unfold guard_F4 in G4; apply negb_false_iff in G4; exact G4).
+  assert (W : wfenc p).
+  { unfold guard_F6, wellformed in G6. apply negb_false_iff in G6. destruct (unescape p) eqn:E; [|discriminate].
+    eapply wfenc_of_unescape; eassumption. }
+  destruct (view_xfu_mk _ _ _ _ _ _ V W Ev Hp) as (Ne & ->). apply accepted_view; auto.
+Qed.
+
+Theorem precondition_http rules dflt host q p :
+  p <> "*" -> guard_F4 p = false -> enc_slash p = true ->
+  (forall r t, In r rules -> In t (r_routes r) -> rmatch (rt_pat t) (segs_of p) = true -> r_setting r = Off) ->
+  serve repaired rules dflt host p q = Precondition \/ serve repaired rules dflt host p q = BadRequest \/
+  (dflt = false /\ serve repaired rules dflt host p q = NoRule).
+Proof.
+  intros Hs G4 Es Hoff. unfold serve. destruct (view host p q) as [u|] eqn:V; [|auto].
+  assert (Ev : valid_encoded p = true) by (unfold guard_F4 in G4; apply negb_false_iff in G4; exact G4).
+  destruct (view_http_mk _ _ _ _ V Ev Hs) as (W & Ne & ->).
+  destruct (precondition_view repaired rules dflt host q p Ne Es (or_introl eq_refl) Hoff) as [H|H]; auto.
+Qed.
+
+Theorem precondition_envoy rules dflt host q p :
+  is_empty p = false -> enc_slash p = true ->
+  (forall r t, In r rules -> In t (r_routes r) -> rmatch (rt_pat t) (segs_of p) = true -> r_setting r = Off) ->
+  serve_envoy repaired rules dflt host p q = Precondition \/
+  (dflt = false /\ serve_envoy repaired rules dflt host p q = NoRule).
+Proof. intros Ne Es Hoff. unfold serve_envoy. rewrite view_envoy_mk. apply precondition_view; auto. Qed.
+
+(** *** X-Forwarded-Uri *)
+
+Lemma ctl_facts_b : forall c, implb (unreserved c || Ascii.eqb c "%"%char) (negb (ctl_byte c)) = true.
+Proof. by_ascii. Qed.
+
+Lemma has_ctl_cons c r : has_ctl (String c r) = ctl_byte c || has_ctl r.
+Proof. reflexivity. Qed.
+
+Lemma unreserved_not_ctl c : unreserved c = true -> ctl_byte c = false.
+Proof. intro H. pose proof (ctl_facts_b c) as B. rewrite H in B. simpl in B. apply negb_true_iff in B. exact B. Qed.
+
+Lemma has_ctl_trip a b r : ishex a = true -> ishex b = true ->
+  has_ctl (String "%"%char (String a (String b r))) = has_ctl r.
+Proof.
+  intros Ha Hb. rewrite !has_ctl_cons.
+  rewrite (unreserved_not_ctl a) by (apply ishex_unreserved; assumption).
+  rewrite (unreserved_not_ctl b) by (apply ishex_unreserved; assumption). reflexivity.
+Qed.
+
+Lemma reenc_has_ctl p p' : reenc p p' -> has_ctl p = has_ctl p'.
+Proof.
+  induction 1 as [|c s s' Hc _ IH|c a b s s' Hu Ha Hb Hv _ IH|c a b s s' Hu Ha Hb Hv _ IH
+                  |a b a' b' s s' Ha Hb Ha' Hb' Hv _ IH].
+  - reflexivity.
+  - rewrite !has_ctl_cons, IH. reflexivity.
+  - rewrite has_ctl_trip by assumption. rewrite has_ctl_cons, (unreserved_not_ctl c Hu). exact IH.
+  - rewrite has_ctl_trip by assumption. rewrite has_ctl_cons, (unreserved_not_ctl c Hu). exact IH.
+  - rewrite !has_ctl_trip by assumption. exact IH.
+Qed.
+
+(** normal form of [view_xfu] on a well-formed value that starts with '/' *)
+Lemma view_xfu_eq f6 host own p q : wfenc p -> has_prefix "/" p = true ->
+  view_xfu f6 host own p q =
+  if has_ctl p || has_ctl q then None
+  else Some (mk_view host (if valid_encoded p then p else escape MPath (unescape_or_empty p))
+                     (values_encode (fst (parse_query q)))).
+Proof.
+  intros W Hp. unfold view_xfu. destruct (has_ctl p || has_ctl q); [reflexivity|].
+  destruct (wfenc_unescape p W) as [pa Hpa].
+  destruct (set_path p) as [[pa' rp]|] eqn:Hs; [|apply set_path_none in Hs; congruence].
+  unfold view_of.
+  rewrite (set_path_escaped _ _ _ Hs) by (eapply unescape_keeps_slash; [eassumption | eapply set_path_unescape; eassumption]).
+  rewrite (set_path_unescape _ _ _ Hs) in Hpa. inversion Hpa; subst pa'.
+  rewrite (unescape_or_empty_some _ _ (set_path_unescape _ _ _ Hs)). reflexivity.
+Qed.
+
+Theorem reencoding_invariant_xfu fx rules dflt host own q p p' :
+  reenc p p' -> has_prefix "/" p = true ->
+  guard_F1 rules p p' = false ->
+  (fx2 fx = true \/ guard_F2 p p' = false) ->
+  (fx3 fx = true \/ guard_F3 rules = false) ->
+  decision_eq (serve_xfu fx rules dflt host own p q) (serve_xfu fx rules dflt host own p' q).
+Proof.
+  intros R Hp G1 G2 G3. unfold serve_xfu.
+  assert (Hp' : has_prefix "/" p' = true) by (rewrite <- (reenc_first_byte "/"%char _ _ R) by reflexivity; exact Hp).
+  rewrite (view_xfu_eq _ _ _ p q (reenc_wf_l _ _ R) Hp), (view_xfu_eq _ _ _ p' q (reenc_wf_r _ _ R) Hp').
+  rewrite <- (reenc_has_ctl _ _ R). destruct (has_ctl p || has_ctl q); [exact I|].
+  rewrite <- (reenc_valid_encoded _ _ R), <- (reenc_unescape_or_empty _ _ R).
+  destruct (valid_encoded p).
+  - eapply serve_view_rel; try eassumption; try reflexivity.
+    + apply mk_view_rel; assumption.
+    + destruct p; [discriminate | reflexivity].
+  - apply decision_eq_refl.
+Qed.
+
+Theorem off_rejects_encoded_slash_xfu rules dflt host own q p rid d cs up :
+  enc_slash p = true -> guard_F6 p = false -> guard_F4 p = false -> has_prefix "/" p = true ->
+  serve_xfu repaired rules dflt host own p q = Accepted rid d cs up ->
+  d = false /\ exists r, In r rules /\ r_id r = rid /\ r_setting r <> Off.
+Proof.
+  intros Es G6 G4 Hp. unfold serve_xfu.
+  assert (W : wfenc p).
+  { unfold guard_F6, wellformed in G6. apply negb_false_iff in G6. destruct (unescape p) eqn:E; [|discriminate].
+    eapply wfenc_of_unescape; eassumption. }
+  rewrite (view_xfu_eq _ _ _ p q W Hp). destruct (has_ctl p || has_ctl q); [discriminate|].
+  unfold guard_F4 in G4. apply negb_false_iff in G4. rewrite G4.
+  apply (off_rejects_encoded_slash_envoy repaired rules dflt host _ p rid d cs up Es (or_introl eq_refl)).
+Qed.
+
+Theorem reencoding_invariant_xfu_repaired rules dflt host own q p p' :
+  reenc p p' -> has_prefix "/" p = true -> guard_F1 rules p p' = false ->
+  decision_eq (serve_xfu repaired rules dflt host own p q) (serve_xfu repaired rules dflt host own p' q).
+Proof. intros R Hp G1. apply reencoding_invariant_xfu; auto. Qed.
+
+(** C08-F6: a forwarded target that does not parse is replaced by the proxy's own target *)
+Theorem F6_refuted :
+  enc_slash "/a%2Fb%zz" = true /\ guard_F6 "/a%2Fb%zz" = true /\ guard_F4 "/a%2Fb%zz" = false /\
+  serve_xfu repaired [] true "h" "/zz-own" "/a%2Fb%zz" "" = Accepted "default" true [] None /\
+  serve_xfu repaired_F6 [] true "h" "/zz-own" "/a%2Fb%zz" "" = Precondition.
+Proof. splits; vm_compute; reflexivity. Qed.
+
+Theorem capture_decoding_repaired_nd st v : wfenc v -> st <> On ->
+  unescape_capture repaired st v = decode_keep_slash v.
+Proof. intros W Hs. rewrite (capture_decoding_repaired st v W). destruct st; congruence. Qed.
